@@ -215,8 +215,14 @@ fn e2e_batch(sink: &mut Sink, r: &mut Rng, fams: &[Family], bin: &str, scratch: 
         std::fs::write(dir.join(&b), join(&more)).unwrap();
         pairs.push((a, b, what.join(", ")));
     }
+    // a user-defined language whose single-line prefixes overlap (`;` and `;;`): comments with
+    // either prefix are comments
+    exts.push("lsp".to_string());
+    std::fs::write(dir.join("src/core/custom_base.lsp"), "(define a 1)\n(define b 2)\n").unwrap();
+    std::fs::write(dir.join("src/core/custom_more.lsp"), "; short prefix\n(define a 1)\n;; long prefix\n(define b 2)\n ; indented\n").unwrap();
+    pairs.push(("src/core/custom_base.lsp".to_string(), "src/core/custom_more.lsp".to_string(), "\"; short prefix\", \";; long prefix\", \" ; indented\" (custom language with prefixes ; and ;;)".to_string()));
     let list = exts.iter().map(|e| format!("\"{e}\"")).collect::<Vec<_>>().join(", ");
-    std::fs::write(dir.join(".sloc-guard.toml"), format!("version = \"2\"\n[scanner]\ngitignore = false\n[content]\nmax_lines = 4\nextensions = [{list}]\n[[content.rules]]\npattern = \"src/**\"\nmax_lines = 100000\nskip_comments = false\nskip_blank = false\n[[content.rules]]\npattern = \"src/core/**\"\nmax_lines = 5\n")).unwrap();
+    std::fs::write(dir.join(".sloc-guard.toml"), format!("version = \"2\"\n[scanner]\ngitignore = false\n[content]\nmax_lines = 4\nextensions = [{list}]\n[[content.rules]]\npattern = \"src/**\"\nmax_lines = 100000\nskip_comments = false\nskip_blank = false\n[[content.rules]]\npattern = \"src/core/**\"\nmax_lines = 5\n[languages.Lispish]\nextensions = [\"lsp\"]\nsingle_line_comments = [\";\", \";;\"]\n")).unwrap();
     let o = std::process::Command::new(bin).args(["check", "--no-sloc-cache", "--format", "json", "."]).current_dir(&dir).env("NO_COLOR", "1").output().expect("run sloc-guard");
     let v: serde_json::Value = serde_json::from_slice(&o.stdout).unwrap_or(serde_json::Value::Null);
     let get = |name: &str| -> Option<(String, u64)> {
